@@ -138,3 +138,9 @@ package cty
 //@   ensures (=> (wf_deep v) (wf_deep result))
 //@   ensures (=> (is_known v) (= result v))
 //@   ensures (=> (and (not (is_known v)) (= (Slice.len refiners) 1) (rf_numeric (select (select F.Arr<Func> (Slice.ptr refiners)) (Slice.off refiners)))) (not (and (is_known result) (is_null result))))
+//
+// NewValueMarks is not under contract (assumed: the result is nil or a finite mark set; which marks it holds
+// is not stated).
+//@ func cty.NewValueMarks
+//@   trusted
+//@   ensures (and (>= result 0) (MapC<Any~Unit>.ok (select F.MapC<Any~Unit> result)))
